@@ -1,6 +1,6 @@
 """C18 - results reflect the object's current contents, not earlier calls (E2: operation-history explorer).
 
-Every sequence of operations up to depth d over a 23-operation alphabet (accessor calls, in-place edits, watershed
+Every sequence of operations up to depth d over a 25-operation alphabet (accessor calls, in-place edits, watershed
 calls on other shapes / other objects, a reader call) is executed on freshly built objects in a freshly forked child
 (so no hidden state leaks between histories); afterwards an observation battery is compared with the same battery
 computed in a FRESH INTERPRETER on a freshly constructed object with the same contents.
@@ -26,8 +26,13 @@ DIR1 = np.arange(8) * 45.0
 DIR2 = np.arange(8) * 22.5 + 10.0  # same size, other spacing: the bin width changes
 OPS = ["hs", "tp", "dd", "smooth", "crsd", "stats_unknown", "set_efth", "set_ds_dir", "set_da_dir", "set_freq",
        "ws_shapeA", "ws_shapeB", "other_object", "reader", "efth_values_inplace", "coords_dir", "coords_freq", "da_values_inplace",
-       "observe_all", "ws_shapeT", "ws_empty", "reader_edit", "fit_with_empty"]
-EDITS = {"set_efth": 0, "set_ds_dir": 1, "set_da_dir": 2, "set_freq": 3, "efth_values_inplace": 0, "coords_dir": 1, "coords_freq": 3, "da_values_inplace": 4}
+       "observe_all", "ws_shapeT", "ws_empty", "reader_edit", "fit_with_empty", "set_lonlat", "lonlat_values_inplace"]
+EDITS = {"set_efth": 0, "set_ds_dir": 1, "set_da_dir": 2, "set_freq": 3, "efth_values_inplace": 0, "coords_dir": 1, "coords_freq": 3, "da_values_inplace": 4,
+         "set_lonlat": 5, "lonlat_values_inplace": 5}
+NCONTENT = 6
+# station positions: the query points of the battery are nearest to station 1 with the first set and to station 2 with the second
+LON1, LAT1 = np.array([150.0, 151.0]), np.array([-34.0, -34.5])
+LON2, LAT2 = np.array([151.5, 150.25]), np.array([-34.5, -34.0])
 
 
 def efth(which):
@@ -47,8 +52,10 @@ def build(content):
 
     e, dsd, dad, fr = content[:4]
     dav = content[4] if len(content) > 4 else 0
+    ll = content[5] if len(content) > 5 else 0
     f = FREQ2 if fr else FREQ1
-    ds = xr.Dataset({"efth": (("site", "freq", "dir"), efth(2 if e else 1).copy())},
+    ds = xr.Dataset({"efth": (("site", "freq", "dir"), efth(2 if e else 1).copy()),
+                     "lon": (("site",), (LON2 if ll else LON1).copy()), "lat": (("site",), (LAT2 if ll else LAT1).copy())},
                     coords={"site": [1, 2], "freq": f.copy(), "dir": (DIR2 if dsd else DIR1).copy()})
     da = xr.DataArray((efth(2)[1] if dav else efth(1)[0]).copy(), dims=["freq", "dir"], coords={"freq": FREQ1.copy(), "dir": (DIR2 if dad else DIR1).copy()}, name="efth")
     return ds, da
@@ -94,6 +101,12 @@ def apply_op(op, ds, da, env):
         ds.coords["freq"] = FREQ2.copy()
     elif op == "da_values_inplace":
         da.values[...] = efth(2)[1]
+    elif op == "set_lonlat":
+        ds["lon"] = (("site",), LON2.copy())   # the stations are moved (variables replaced)
+        ds["lat"] = (("site",), LAT2.copy())
+    elif op == "lonlat_values_inplace":
+        ds["lon"].values[...] = LON2            # same Variables, same buffers, new positions
+        ds["lat"].values[...] = LAT2
     elif op in ("ws_shapeA", "ws_shapeB", "ws_shapeT"):
         from wavespectra.partition.partition import np_ptm3
         # shape T is the transposed shape of the observed spectra (8 x 5 vs 5 x 8): same number of bins, other layout
@@ -137,7 +150,7 @@ def apply_op(op, ds, da, env):
 
 
 def content_after(hist):
-    c = [0, 0, 0, 0, 0]
+    c = [0] * NCONTENT
     for op in hist:
         if op in EDITS:
             c[EDITS[op]] = 1
@@ -179,6 +192,11 @@ def battery(ds, da):
     put("ds.spec.dd", ds.spec.dd)
     put("ds.spec.freq", ds.spec.freq)
     put("ds.spec.partition.ptm3", ds.spec.partition.ptm3(parts=2))
+    # station selection with the dataset's own positions (the default dset_lons / dset_lats)
+    put("ds.spec.sel(nearest).efth", ds.spec.sel([150.2], [-34.05], method="nearest").efth)
+    put("ds.spec.sel(nearest).lon", ds.spec.sel([150.2], [-34.05], method="nearest").lon)
+    put("ds.spec.sel(idw).efth", ds.spec.sel([150.4], [-34.2], method="idw", tolerance=5.0).efth)
+    put("ds.spec.sel(bbox).site", ds.spec.sel([149.9, 150.5], [-34.2, -33.8], method="bbox").site)
     put("da.spec.hs", da.spec.hs())
     put("da.spec.dd", da.spec.dd)
     put("da.spec.dm", da.spec.dm())
@@ -231,7 +249,7 @@ def hidden_state(ds, da):
 
 def run_history(hist, REF):
     """executes one history on fresh objects in THIS process (callers fork first). Returns (violations, state key)."""
-    ds, da = build((0, 0, 0, 0, 0))
+    ds, da = build((0,) * NCONTENT)
     env = {}
     err = None
     for i, op in enumerate(hist):
@@ -314,7 +332,7 @@ def replay(case):
     return vs
 
 
-REDUCED = ["observe_all", "stats_unknown", "ws_shapeT", "ws_empty", "fit_with_empty"] + sorted(EDITS)
+REDUCED = ["observe_all", "stats_unknown", "ws_shapeT", "ws_empty", "fit_with_empty"] + sorted(e for e in EDITS if e != "lonlat_values_inplace")
 
 
 def histories(depth, tier):
@@ -335,14 +353,14 @@ def run(rep, tier, seed, parts=None):
     common.load_wavespectra()
     os.environ["C18_BATTERY"] = "light" if tier == "quick" else "full"
     depth = 3 if tier == "quick" else 4
-    rep.rule = ("all operation sequences up to depth %d over the 23-operation alphabet %s (quick: full alphabet to depth 2, depth 3 over a reduced 13-operation "
-                "alphabet with at least one edit, 17-observation battery; thorough: full alphabet to depth 3, reduced alphabet with an edit at depth 4, 28-observation battery); each history runs on freshly built objects in a freshly "
-                "forked child and its 28-observation battery is compared with a fresh interpreter's battery on a freshly constructed "
+    rep.rule = ("all operation sequences up to depth %d over the 25-operation alphabet %s (quick: full alphabet to depth 2, depth 3 over a reduced 14-operation "
+                "alphabet with at least one edit, 21-observation battery incl. station selection with the dataset's own positions; thorough: full alphabet to depth 3, reduced alphabet with an edit at depth 4, 32-observation battery); each history runs on freshly built objects in a freshly "
+                "forked child and its battery is compared with a fresh interpreter's battery on a freshly constructed "
                 "object of the same contents. A state is (content, accessor/memo/global-table signature) after a history; transitions = "
                 "operations executed; traces = histories executed (the implementation itself is what runs)." % (depth, OPS))
-    rep.assumptions = ["in-place edits assign fixed alternative values, so there are 32 content states and one fresh-interpreter reference per state",
+    rep.assumptions = ["in-place edits assign fixed alternative values, so there are 64 content states (spectra, directions of the dataset / of the array, frequencies, array values, station positions) and one fresh-interpreter reference per state",
                        "fork gives every history a process whose hidden state is that of a process which imported the library and ran nothing"]
-    contents = list(itertools.product((0, 1), repeat=5))
+    contents = list(itertools.product((0, 1), repeat=NCONTENT))
     REF = {}
     for c, ob in zip(contents, common.pmap(reference_for, contents)):
         if isinstance(ob, common.Hang):
